@@ -108,12 +108,14 @@ type Impl struct{}
 
 func (Impl) A() {}
 
+// @ignore IMPL03
 var _ api.Svc = Impl{}
 `
 const c11SrcC2 = `package client2
 
 import "zzmod/v2/api"
 
+// @ignore CTOR01
 // @implements api.Svc
 type Impl struct{}
 
@@ -129,7 +131,9 @@ func ZZC11Commute() {
 	files := []nd.File{{Pkg: "zzmod/v1/api", Name: "a.go", Src: c11SrcV1}, {Pkg: "zzmod/v2/api", Name: "a.go", Src: c11SrcV2},
 		{Pkg: "zzmod/client1", Name: "c.go", Src: c11SrcC1}, {Pkg: "zzmod/client2", Name: "c.go", Src: c11SrcC2}}
 	prog := nd.LoadProgram(files, nil)
-	cfg := config.Default()
+	// a project-wide exclusion that matters to neither package, and in each package one marker that names a code the other
+	// package's marker does not: whatever the packages' ignore sets share, a marker never suppresses a code it did not name
+	cfg := config.New(false, []string{"testdata"}, []string{"TONL"})
 	var r1, r2 Result
 	if nd.Bool("client2_first") {
 		r2 = Analyze(prog, cfg, "zzmod/client2", Facts{}, "impl", "imm", "ctor", "tonl", "pkgo")
@@ -140,4 +144,65 @@ func ZZC11Commute() {
 	}
 	CheckExact(r1.Diags, []Expect{}, "client1 implements v1/api.Svc: nothing to report, in either order")
 	CheckExact(r2.Diags, []Expect{{"/zz/zzmod/client2/c.go", nd.LineOf(c11SrcC2, "type Impl struct{}"), "IMPL03", true}}, "client2 misses B of v2/api.Svc: IMPL03, in either order")
+}
+
+const c11SrcOrderA = `package d
+
+var early = func() *T {
+	t := NewT()
+	t.f = 1 // FO-A-INIT
+	return t
+}()
+
+//«annT»
+// @constructor NewT
+type T struct {
+	f int
+}
+
+func Other(t *T) {
+	t.f = 5 // FO-A-OTHER
+}
+`
+
+const c11SrcOrderB = `package d
+
+var late = func() *T {
+	t := NewT()
+	t.f = 3 // FO-B-INIT
+	return t
+}()
+
+func After(t *T) {
+	t.f = 4 // FO-B-AFTER
+}
+
+func NewT() *T {
+	t := &T{}
+	t.f = 2
+	return t
+}
+`
+
+// ZZC11FileOrder: the files of a package reach the analyzers in either order (positions in the FileSet ascending or not):
+// the verdicts are the same — in particular the constructor that ends one file does not extend over the package-level
+// initialiser that begins the file visited next.
+func ZZC11FileOrder() {
+	annT := nd.EnumPad("annT", " @immutable", " plain")
+	rev := nd.Bool("files_reversed")
+	ReverseFiles = false
+	if rev {
+		ReverseFiles = true
+	}
+	prog := nd.LoadProgram([]nd.File{{Pkg: "zzmod/d", Name: "a.go", Src: c11SrcOrderA}, {Pkg: "zzmod/d", Name: "b.go", Src: c11SrcOrderB}}, []nd.Hole{{"annT", annT}})
+	res := Analyze(prog, config.Default(), "zzmod/d", Facts{}, "imm", "ctor")
+	ReverseFiles = false
+	imm := nd.HasPrefix(annT, " @immutable")
+	fa, fb := "/zz/zzmod/d/a.go", "/zz/zzmod/d/b.go"
+	CheckExact(res.Diags, []Expect{
+		{fa, nd.LineOf(c11SrcOrderA, "FO-A-INIT"), "IMM01", imm},
+		{fa, nd.LineOf(c11SrcOrderA, "FO-A-OTHER"), "IMM01", imm},
+		{fb, nd.LineOf(c11SrcOrderB, "FO-B-INIT"), "IMM01", imm},
+		{fb, nd.LineOf(c11SrcOrderB, "FO-B-AFTER"), "IMM01", imm},
+	}, "C11 order of Pass.Files")
 }
